@@ -2,14 +2,8 @@
     for that storage key enters the issuer again, and storage keeps that certificate. *)
 From Coq Require Import List Bool Arith Lia.
 From CM Require Import Issuance.Model Issuance.Proofs Issuance.Invariants.
+From CM Require Export Issuance.KeyDefs.
 Import ListNotations.
-
-Definition cert_prog (c : tcfg) : Prop :=
-  match c_prog c with PObtain _ | PRenew _ | PManage => True | _ => False end.
-
-(** a request whose spellings all denote storage name [n] and lock [L], not forced *)
-Definition on_key (n L : nat) (c : tcfg) : Prop :=
-  c_pk c = n /\ c_vk c = n /\ c_lk c = L /\ force_eff c = false /\ cert_prog c.
 
 (** the request has not decided to issue (and cannot decide so from what it has seen) *)
 Definition quiet (ce : cert) (th : thread) : Prop :=
